@@ -542,6 +542,12 @@ func VerifC18ResetEnc(tmpl1 string, opt1, w1 int, tmpl2 string, opt2, w2 int, us
 	k2 := mk(w2)
 	e.Reset(k2.w, zz18Opts(opt2)...)
 	vrt.Assert("C18/reset/enc/offset-zero", e.OutputOffset() == 0 && e.StackDepth() == 0 && e.StackPointer() == "")
+	if k1.bb != nil {
+		// the caller goes on using its first buffer: the encoder has been pointed elsewhere and
+		// must neither overwrite this nor be disturbed by it
+		k1.bb.WriteString("####")
+		snap1 = append(snap1, "####"...)
+	}
 	tr1, r1 := zz18EncDrive(e, in2, useValues)
 	k3 := mk(w2)
 	f := NewEncoder(k3.w, zz18Opts(opt2)...)
